@@ -83,47 +83,72 @@ def fmt(d, v):
     return '?'
 
 
-LINE = re.compile(rb'^((?:  )*)(.*)$')
+NAME = rb'[A-Za-z0-9_]+'
 
 
 def reduce_output(text):
-    """-> list of (indent units, shape, name, values) or None for a line that fits no shape"""
+    """-> list of (indent level, shape, name, values) or (None, offending line).  Spacing is not part of the property: the
+    indentation unit is whatever the output uses (the smallest non-empty indentation, every other one a multiple of it), blanks
+    around '=' and inside braces are ignored."""
+    lines = [l for l in text.split(b'\n') if l.strip() != b'']
+    indents = []
+    for raw in lines:
+        body = raw.lstrip(b' \t')
+        indents.append(raw[:len(raw) - len(body)])
+    import math
+    base = min((len(i) for i in indents), default=0)
+    unit = 0
+    for i in indents:
+        unit = math.gcd(unit, len(i) - base)
+    unit = unit or 1
     out = []
-    for raw in text.split(b'\n'):
-        if raw == b'':
-            continue
-        m = LINE.match(raw)
-        ind = len(m.group(1)) // 2
-        rest = m.group(2)
-        if rest.startswith(b' '):
-            return None, raw
+    for raw, ind_s in zip(lines, indents):
+        ind = (len(ind_s) - base) // unit      # level relative to the least indented line of this output
+        rest = raw[len(ind_s):].rstrip(b' \t')
         if rest == b'}':
             out.append((ind, 'close', b'', None))
             continue
-        mm = re.match(rb'^([A-Za-z0-9_]+) (?:"([^"]*)" )?\{$', rest)
+        mm = re.match(rb'^(' + NAME + rb')(?:\s+"((?:[^"\\]|\\.)*)")?\s*\{$', rest)
         if mm:
             out.append((ind, 'open', mm.group(1), mm.group(2)))
             continue
-        mm = re.match(rb'^([A-Za-z0-9_]+) = \{(.*)\}$', rest)
+        mm = re.match(rb'^(' + NAME + rb')\s*=\s*\{(.*)\}$', rest)
         if mm:
             body = mm.group(2).decode('latin-1')
             vals = [v.strip() for v in body.split(',')] if body.strip() else []
             out.append((ind, 'list', mm.group(1), vals))
             continue
-        mm = re.match(rb'^# ([A-Za-z0-9_]+)=(.*)$', rest)
+        mm = re.match(rb'^#\s*(' + NAME + rb')\s*=\s*(.*)$', rest)
         if mm:
             out.append((ind, 'unset', mm.group(1), mm.group(2).decode('latin-1')))
             continue
-        mm = re.match(rb'^([A-Za-z0-9_]+)=(.*)$', rest)
+        mm = re.match(rb'^(' + NAME + rb')\s*=\s*(.*)$', rest)
         if mm:
             out.append((ind, 'scalar', mm.group(1), [mm.group(2).decode('latin-1')]))
             continue
-        mm = re.match(rb'^(<PF:([A-Za-z0-9_]+):\d+>)$', rest)
+        mm = re.match(rb'^(<PF:(' + NAME + rb'):\d+>)$', rest)
         if mm:
             out.append((ind, 'pf', mm.group(2), [mm.group(1).decode()]))
             continue
         return None, raw
     return out, None
+
+
+def indent_unit_len(text):
+    import math
+    u = 0
+    for l in text.split(b'\n'):
+        if l.strip():
+            u = math.gcd(u, len(l) - len(l.lstrip(b' \t')))
+    return u
+
+
+def rel(entries_list):
+    """depths relative to the least deep entry (the reducer measures indentation the same way)"""
+    if not entries_list:
+        return entries_list
+    m = min(e[0] for e in entries_list)
+    return [(e[0] - m,) + tuple(e[1:]) for e in entries_list]
 
 
 def same(exp, got):
@@ -229,7 +254,7 @@ def shard(sh):
                 st.outcome(outs[0])
                 st.nontriv(outs[0])
                 # 1. the whole print
-                exp = entries(store, eff0, 0, filters_of)
+                exp = rel(entries(store, eff0, 0, filters_of))
                 got, badline = reduce_output(texts[0])
                 if got is None:
                     st.violation('unrecognised-line', script, 'a line of one of the known shapes', repr(badline))
@@ -240,7 +265,10 @@ def shard(sh):
                     continue
                 # 2. cfg_print_indent(cfg, 2) = the same, two levels deeper
                 got2, _ = reduce_output(texts[1])
-                if got2 is None or [(g[0] - 2,) + g[1:] for g in got2] != got:
+                u = indent_unit_len(texts[0])
+                first = texts[1].split(b'\n')[0] if texts[1] else b''
+                base2 = len(first) - len(first.lstrip(b' \t'))
+                if got2 is None or got2 != got or (u and texts[1] and base2 != 2 * u):
                     st.violation('print-indent-differs', script, 'cfg_print output shifted by 2 levels', texts[1].decode('latin-1'))
                     continue
                 # 3. cfg_opt_print of the section option 'sub': no filter from above
@@ -250,6 +278,7 @@ def shard(sh):
                     exp3.append((0, 'open', b'sub', None))
                     exp3 += entries(inst, filters_of(inst), 1, filters_of)
                     exp3.append((0, 'close', b'', None))
+                exp3 = rel(exp3)
                 got3, _ = reduce_output(texts[2])
                 if got3 is None or len(exp3) != len(got3) or not all(same(e, g) for e, g in zip(exp3, got3)):
                     st.violation('opt-print-structure', script, '\n'.join(map(str, exp3)), texts[2].decode('latin-1'))
@@ -257,7 +286,7 @@ def shard(sh):
                 # 4. every section body equals print_indent of the instance one level deeper
                 whole_lines = texts[0].split(b'\n')
                 for (ref, inst, eff, dep), t in zip(bodies, texts[4:]):
-                    expb = entries(inst, eff, dep, filters_of)
+                    expb = rel(entries(inst, eff, dep, filters_of))
                     gotb, _ = reduce_output(t)
                     if gotb is None or len(expb) != len(gotb) or not all(same(e, g) for e, g in zip(expb, gotb)):
                         st.violation('section-print-structure', script, '\n'.join(map(str, expb)), t.decode('latin-1'))
